@@ -1763,6 +1763,41 @@ impl IRBuilder {
             }
         }
 
+        // The executor emits the group-by columns first and the aggregate values after
+        // them. When a scalar aggregate is not the last head argument
+        // (`r(count<X>, G)`), restore the head's column order with a projection.
+        let has_ranking = aggregations.iter().any(|(f, _)| f.is_ranking());
+        if !has_ranking {
+            let n_groups = group_by.len();
+            let (mut g, mut a) = (0, 0);
+            let mut head_order = Vec::with_capacity(head.args.len());
+            for term in &head.args {
+                if matches!(term, Term::Aggregate(_, _)) {
+                    head_order.push(n_groups + a);
+                    a += 1;
+                } else {
+                    head_order.push(g);
+                    g += 1;
+                }
+            }
+            if head_order.iter().enumerate().any(|(i, &p)| i != p) {
+                let mut emitted_schema = vec![String::new(); output_schema.len()];
+                for (head_pos, &emitted_pos) in head_order.iter().enumerate() {
+                    emitted_schema[emitted_pos] = output_schema[head_pos].clone();
+                }
+                return Ok(IRNode::Map {
+                    input: Box::new(IRNode::Aggregate {
+                        input: Box::new(input),
+                        group_by,
+                        aggregations,
+                        output_schema: emitted_schema,
+                    }),
+                    projection: head_order,
+                    output_schema,
+                });
+            }
+        }
+
         Ok(IRNode::Aggregate {
             input: Box::new(input),
             group_by,
